@@ -47,6 +47,7 @@
   defines no link reference that state is the initial one (`Paragraph.parse_setext` is `True` again
   after every top-level read, `sx_all`), which gives the statement with `blockPhase B` itself.
 -/
+import Mistletoe.Model.Config
 import Mistletoe.Proofs.Locality
 namespace Mistletoe.Props.C05
 open Mistletoe Mistletoe.Py Mistletoe.Scan Mistletoe.Block
@@ -360,5 +361,15 @@ theorem list_discard_registers_twice :
     digestR (blockPhase cfgX 60 (exA ++ [['\n']] ++ exB)) =
       some ([(5, 1, 1), (13, 1, 1), (9, 1, 1), (6, 2, 2), (7, 5, 5)], true, 2) := by
   refine ⟨?_, ?_, ?_⟩ <;> decide +kernel
+
+
+/-- the hypothesis `.blankLine ∉ cfg.types` of the prefix theorems holds for the token lists of the working
+    tree outside the Markdown renderer (default list and the HTML renderer's list, regenerated from /repo) -/
+theorem C05_config_current : ∀ cfg, (Config.html = some cfg ∨ Config.default = some cfg) → BTok.blankLine ∉ cfg.block.types := by
+  have h : ∀ o ∈ [Config.html, Config.default], ∀ cfg, o = some cfg → (!cfg.block.types.contains BTok.blankLine) = true := by
+    decide +kernel
+  intro cfg hc
+  have := h (some cfg) (by rcases hc with hc | hc <;> simp [hc]) cfg rfl
+  simpa using this
 
 end Mistletoe.Props.C05
